@@ -5,10 +5,18 @@
 // (props/C17/driver) and evaluates the C17 property predicates directly on the implementation's
 // own numbers (PROPFAIL lines in VERIF_OUT.summary).
 //
-//	L;<baud>;<def>;<ifaces>;<obs>     ifaces: `|`-separated interfaces (`-` = none), each a
-//	                                  space-separated list of key:size:cycle
-//	obs: ERR:neg | ERR:zero | ERR:other | OK:<load>:<key,bps,pct> <key,bps,pct> ...
-//	     (numbers are exact rationals num/den of the float64 values, or NaN)
+//	L;<baud>;<defs>;<builder>;<ifaces>;<obs>
+//	    defs:    `,`-separated default cycle times: CalculateBusLoad is called once per default on
+//	             the SAME bus, in this order
+//	    builder: 0 default CAN-ID builder, 1 message id only, 2 node id only, 3 no operations
+//	             (1-3 make the computed CAN-IDs of distinct messages collide)
+//	    ifaces:  `|`-separated interfaces (`-` = none), each `<node id>=` followed by a
+//	             space-separated list of key:size:cycle:<message id>
+//	    obs:     one per call, `~`-separated:
+//	             ERR:neg | ERR:zero | ERR:other | OK:<load>:<key,bps,pct> <key,bps,pct> ...
+//	             (numbers are exact rationals num/den of the float64 values, or NaN)
+//	The model only sees baud, defaults, and key:size:cycle; ids and builder are there so that
+//	distinct messages with equal CAN-IDs / names occur and a case can be replayed.
 package main
 
 import (
@@ -36,11 +44,28 @@ func (r *rng) next() uint64 {
 }
 func (r *rng) below(n int) int { return int(r.next() % uint64(n)) }
 
-type mspec struct{ key, size, cycle int }
+type mspec struct{ key, size, cycle, mid int }
 type bspec struct {
 	baud, def int
+	more      []int // further default cycle times for further calls on the same bus
+	builder   int
+	nids      []int // node id per interface (nil: i+1)
 	ifaces    [][]mspec
 	family    string
+}
+
+func (b bspec) defs() []int { return append([]int{b.def}, b.more...) }
+func (b bspec) nid(i int) int {
+	if i < len(b.nids) {
+		return b.nids[i]
+	}
+	return i + 1
+}
+func (m mspec) msgID() int {
+	if m.mid != 0 {
+		return m.mid
+	}
+	return m.key + 1
 }
 
 func (b bspec) msgs() []mspec {
@@ -53,49 +78,92 @@ func (b bspec) msgs() []mspec {
 
 func (b bspec) input() string {
 	var is []string
-	for _, i := range b.ifaces {
+	for n, i := range b.ifaces {
 		var ms []string
 		for _, m := range i {
-			ms = append(ms, fmt.Sprintf("%d:%d:%d", m.key, m.size, m.cycle))
+			ms = append(ms, fmt.Sprintf("%d:%d:%d:%d", m.key, m.size, m.cycle, m.msgID()))
 		}
-		is = append(is, strings.Join(ms, " "))
+		is = append(is, fmt.Sprintf("%d=%s", b.nid(n), strings.Join(ms, " ")))
 	}
 	s := strings.Join(is, "|")
 	if len(b.ifaces) == 0 {
 		s = "-"
 	}
-	return fmt.Sprintf("L;%d;%d;%s", b.baud, b.def, s)
+	ds := make([]string, 0, 1+len(b.more))
+	for _, d := range b.defs() {
+		ds = append(ds, strconv.Itoa(d))
+	}
+	return fmt.Sprintf("L;%d;%s;%d;%s", b.baud, strings.Join(ds, ","), b.builder, s)
 }
 
 // build constructs the bus through the public API; msgOf maps the created messages to keys.
-func build(b bspec) (*acmelib.Bus, map[*acmelib.Message]int, error) {
+type built struct {
+	bus   *acmelib.Bus
+	keys  map[*acmelib.Message]int
+	msgs  []*acmelib.Message
+	nodes []*acmelib.Node
+}
+
+func build(b bspec) (*built, error) {
 	bus := acmelib.NewBus("bus")
 	bus.SetBaudrate(b.baud)
-	keys := map[*acmelib.Message]int{}
+	switch b.builder {
+	case 1:
+		bus.SetCANIDBuilder(acmelib.NewCANIDBuilder("only_msg_id").UseMessageID(0, 11))
+	case 2:
+		bus.SetCANIDBuilder(acmelib.NewCANIDBuilder("only_node_id").UseNodeID(0, 8))
+	case 3:
+		bus.SetCANIDBuilder(acmelib.NewCANIDBuilder("no_operations"))
+	}
+	bt := &built{bus: bus, keys: map[*acmelib.Message]int{}}
+	keys := bt.keys
 	for i, ms := range b.ifaces {
-		node := acmelib.NewNode(fmt.Sprintf("n%d", i), acmelib.NodeID(i+1), 1)
+		node := acmelib.NewNode(fmt.Sprintf("n%d", i), acmelib.NodeID(b.nid(i)), 1)
+		bt.nodes = append(bt.nodes, node)
+		names := map[string]bool{}
 		ni := node.Interfaces()[0]
 		// half of the interfaces get their messages before joining the bus, half after
 		if i%2 == 0 {
 			if err := bus.AddNodeInterface(ni); err != nil {
-				return nil, nil, err
+				return nil, err
 			}
 		}
 		for _, m := range ms {
-			msg := acmelib.NewMessage(fmt.Sprintf("m%d", m.key), acmelib.MessageID(m.key+1), m.size)
+			// equal names on different interfaces are legal and wanted; unique within one
+			name := fmt.Sprintf("m%d", m.msgID())
+			if names[name] {
+				name = fmt.Sprintf("m%d_%d", m.msgID(), m.key)
+			}
+			names[name] = true
+			msg := acmelib.NewMessage(name, acmelib.MessageID(m.msgID()), m.size)
 			msg.SetCycleTime(m.cycle)
 			if err := ni.AddSentMessage(msg); err != nil {
-				return nil, nil, err
+				return nil, err
 			}
 			keys[msg] = m.key
+			bt.msgs = append(bt.msgs, msg)
 		}
 		if i%2 == 1 {
 			if err := bus.AddNodeInterface(ni); err != nil {
-				return nil, nil, err
+				return nil, err
 			}
 		}
 	}
-	return bus, keys, nil
+	return bt, nil
+}
+
+// snapshot of everything CalculateBusLoad reads or could disturb, through public getters
+func (bt *built) snapshot() string {
+	var sb strings.Builder
+	fmt.Fprintf(&sb, "baud=%d ifaces=%d", bt.bus.Baudrate(), len(bt.bus.NodeInterfaces()))
+	for _, n := range bt.nodes {
+		fmt.Fprintf(&sb, " node(%s,%d,sent=%d)", n.Name(), uint32(n.ID()), len(n.Interfaces()[0].SentMessages()))
+	}
+	for _, m := range bt.msgs {
+		fmt.Fprintf(&sb, " msg(%s,id=%d,canid=%d,size=%d,cycle=%d,prio=%d,static=%v,sender=%v)", m.Name(), uint32(m.ID()), uint32(m.GetCANID()),
+			m.SizeByte(), m.CycleTime(), uint32(m.Priority()), m.HasStaticCANID(), m.SenderNodeInterface() != nil)
+	}
+	return sb.String()
 }
 
 func ratOf(f float64) *big.Rat {
@@ -116,16 +184,19 @@ func specBits(size int) int64 {
 	return int64(size*8 + 19 + 25 + (34+size*8-1)/4)
 }
 func specBps(m mspec, def int) *big.Rat {
+	if m.cycle == 0 && def <= 0 {
+		return new(big.Rat)
+	}
 	c := m.cycle
 	if c == 0 {
 		c = def
 	}
 	return new(big.Rat).SetFrac(big.NewInt(specBits(m.size)*1000), big.NewInt(int64(c)))
 }
-func specTotal(b bspec) *big.Rat {
+func specTotal(b bspec, def int) *big.Rat {
 	t := new(big.Rat)
 	for _, m := range b.msgs() {
-		t.Add(t, specBps(m, b.def))
+		t.Add(t, specBps(m, def))
 	}
 	return t
 }
@@ -154,17 +225,14 @@ type result struct {
 	unknown bool // an entry whose message is not one of the sent messages
 }
 
-func call(b bspec) (res result, panicked any) {
+func call(bt *built, def int) (res result, panicked any) {
 	defer func() {
 		if r := recover(); r != nil {
 			panicked = r
 		}
 	}()
-	bus, keys, err := build(b)
-	if err != nil {
-		panic("harness: could not build the bus: " + err.Error())
-	}
-	load, mls, err := acmelib.CalculateBusLoad(bus, b.def)
+	bus, keys := bt.bus, bt.keys
+	load, mls, err := acmelib.CalculateBusLoad(bus, def)
 	res.err, res.load = err, load
 	for _, ml := range mls {
 		k, ok := keys[ml.Message]
@@ -213,20 +281,70 @@ func (s *state) fail(kind string, n int, detail string) {
 	}
 }
 
-// run one bus: call, record, evaluate the predicates; returns the load as an exact rational
+// run one bus: build it once, call CalculateBusLoad once per default cycle time on that same
+// bus, record, evaluate the predicates on every call independently and check that no call
+// changes anything observable; returns the load of the first call as an exact rational
 func (s *state) run(b bspec) *big.Rat {
 	input := b.input()
 	msgs := b.msgs()
 	n := len(msgs)
-	s.calls++
-	res, p := call(b)
-	if p != nil {
-		s.fail("panic", n, fmt.Sprintf("panic %v; case %s", p, input))
-		fmt.Fprintln(s.w, input+";PANIC")
-		return nil
+	bt, err := build(b)
+	if err != nil {
+		panic("harness: could not build the bus: " + err.Error() + " case " + input)
 	}
-	line := input + ";" + res.obs()
+	before := bt.snapshot()
+	for i, m := range bt.msgs {
+		if m.CycleTime() != msgs[i].cycle || m.SizeByte() != msgs[i].size {
+			panic("harness: message getters disagree with what was set")
+		}
+	}
+	var obs []string
+	var first *big.Rat
+	loads := map[int]*big.Rat{}
+	for ci, def := range b.defs() {
+		s.calls++
+		res, p := call(bt, def)
+		if p != nil {
+			s.fail("panic", n, fmt.Sprintf("panic %v (call %d, default %d); case %s", p, ci, def, input))
+			obs = append(obs, "PANIC")
+			continue
+		}
+		obs = append(obs, res.obs())
+		l := s.checkCall(b, def, input, res)
+		if ci == 0 {
+			first = l
+		}
+		// the same default again on the same bus: same figures up to the summation order
+		if prev, ok := loads[def]; ok && prev != nil && l != nil && !within(l, prev, 2*n) {
+			s.fail("repeat-differs", n, fmt.Sprintf("two calls with default %d on the same bus give loads %v and %v; case %s", def, ratFloat(prev), ratFloat(l), input))
+		}
+		loads[def] = l
+		// frame: a call changes nothing observable (cycle times, sizes, ids, CAN-IDs, membership)
+		if after := bt.snapshot(); after != before {
+			s.fail("call-mutates-state", n, fmt.Sprintf("call %d (default %d) changed the bus: before [%s] after [%s]; case %s", ci, def, before, after, input))
+			before = after
+		}
+	}
+	line := input + ";" + strings.Join(obs, "~")
 	fmt.Fprintln(s.w, line)
+	if len(b.more) > 0 {
+		s.hist["calls-per-bus/2+"]++
+	} else {
+		s.hist["calls-per-bus/1"]++
+	}
+	s.hist[fmt.Sprintf("builder/%d", b.builder)]++
+	// distinct messages with equal computed CAN-IDs / equal names (legal)
+	ids, names := map[uint32]int{}, map[string]int{}
+	for _, m := range bt.msgs {
+		ids[uint32(m.GetCANID())]++
+		names[m.Name()]++
+	}
+	if len(ids) < n {
+		s.hist["buses-with-colliding-can-ids"]++
+	}
+	if len(names) < n {
+		s.hist["buses-with-equal-message-names"]++
+	}
 
 	// ---- statistics
 	s.hist["family/"+b.family]++
@@ -250,115 +368,7 @@ func (s *state) run(b bspec) *big.Rat {
 	default:
 		s.hist["baud/positive"]++
 	}
-	switch {
-	case b.def < 0:
-		s.hist["default/negative"]++
-	case b.def == 0:
-		s.hist["default/0"]++
-	default:
-		s.hist["default/positive"]++
-	}
 	s.hist[fmt.Sprintf("interfaces/%d", min(len(b.ifaces), 6))]++
-
-	// ---- refusal / zero baud
-	if b.def <= 0 {
-		if res.err == nil {
-			s.fail("default-not-refused", n, fmt.Sprintf("default cycle time %d accepted (load %v); case %s", b.def, res.load, input))
-		} else {
-			var ae *acmelib.ArgumentError
-			want := acmelib.ErrIsZero
-			if b.def < 0 {
-				want = acmelib.ErrIsNegative
-			}
-			if !errors.As(res.err, &ae) || !errors.Is(res.err, want) {
-				s.fail("default-refusal-kind", n, fmt.Sprintf("default cycle time %d refused with %v, documented ArgumentError wrapping %v; case %s", b.def, res.err, want, input))
-			}
-		}
-		return nil
-	}
-	if res.err != nil {
-		s.fail("positive-default-refused", n, fmt.Sprintf("default cycle time %d refused: %v; case %s", b.def, res.err, input))
-		return nil
-	}
-	if b.baud == 0 {
-		if res.load != 0 {
-			s.fail("zero-baud", n, fmt.Sprintf("baud rate 0 gives load %v, documented 0; case %s", res.load, input))
-		}
-		return nil
-	}
-
-	// ---- each message exactly once
-	seen := map[int]int{}
-	for _, k := range res.keys {
-		seen[k]++
-	}
-	permOK := len(res.keys) == n && !res.unknown
-	for _, m := range msgs {
-		if seen[m.key] != 1 {
-			permOK = false
-		}
-	}
-	if !permOK {
-		s.fail("each-message-once", n, fmt.Sprintf("entries list messages %v, sent messages are keys 0..%d once each; case %s", res.keys, n-1, input))
-	}
-
-	// ---- numbers: load, per-message rate and share, against the documented formula (exact)
-	tot := specTotal(b)
-	loadR := ratOf(res.load)
-	wantLoad := new(big.Rat).Quo(tot, new(big.Rat).SetInt64(int64(b.baud)))
-	wantLoad.Mul(wantLoad, big.NewRat(100, 1))
-	if !within(loadR, wantLoad, n) {
-		s.fail("load-value", n, fmt.Sprintf("load %v (= %s), documented sum of frame bits per cycle / baud * 100 = %s (%v), outside relative bound %d*2^-50; case %s", res.load, ratStr(loadR), wantLoad.String(), ratFloat(wantLoad), max(n, 1), input))
-	}
-	byKey := map[int]mspec{}
-	for _, m := range msgs {
-		byKey[m.key] = m
-	}
-	sumPct := new(big.Rat)
-	sumBps := new(big.Rat)
-	nan := false
-	for i, k := range res.keys {
-		br, pr := ratOf(res.bps[i]), ratOf(res.pct[i])
-		if br == nil || pr == nil {
-			nan = true
-			continue
-		}
-		sumPct.Add(sumPct, pr)
-		sumBps.Add(sumBps, br)
-		if m, ok := byKey[k]; ok {
-			if !within(br, specBps(m, b.def), 1) {
-				s.fail("entry-bps", n, fmt.Sprintf("message key %d (size %d, cycle %d): BitsPerSec %v, documented %s; case %s", k, m.size, m.cycle, res.bps[i], specBps(m, b.def).String(), input))
-			}
-		}
-	}
-	if nan {
-		s.fail("nan", n, fmt.Sprintf("NaN/Inf among the returned figures; case %s", input))
-	} else if n > 0 && permOK {
-		// share of the total, on the implementation's own numbers
-		for i := range res.keys {
-			br, pr := ratOf(res.bps[i]), ratOf(res.pct[i])
-			want := new(big.Rat).Quo(br, sumBps)
-			want.Mul(want, big.NewRat(100, 1))
-			if !within(pr, want, n) {
-				s.fail("entry-pct", n, fmt.Sprintf("message key %d: Percentage %v, its share BitsPerSec/sum*100 is %v; case %s", res.keys[i], res.pct[i], ratFloat(want), input))
-			}
-		}
-		if !within(sumPct, big.NewRat(100, 1), n) {
-			s.fail("shares-sum", n, fmt.Sprintf("percentages sum to %v, not 100 within %d*2^-50; case %s", ratFloat(sumPct), n, input))
-		}
-	}
-
-	// ---- order: non-increasing bits per second, on the implementation's own floats
-	for i := 0; i+1 < len(res.bps); i++ {
-		if res.bps[i] < res.bps[i+1] {
-			kind := "sorted-diff-ge-1"
-			if res.bps[i+1]-res.bps[i] < 1 {
-				kind = "sorted-diff-lt-1"
-			}
-			s.fail(kind, n, fmt.Sprintf("entry %d has %v bits/s, entry %d has %v bits/s (increasing by %v); case %s", i, res.bps[i], i+1, res.bps[i+1], res.bps[i+1]-res.bps[i], input))
-			break
-		}
-	}
 
 	// ---- coverage bookkeeping
 	rates := map[string]bool{}
@@ -391,6 +401,122 @@ func (s *state) run(b bspec) *big.Rat {
 	if len(s.samples) < 6 && s.calls%97 == 3 && n <= 6 {
 		s.samples = append(s.samples, line)
 	}
+	return first
+}
+
+
+// checkCall evaluates the property predicates on the figures of one call
+func (s *state) checkCall(b bspec, def int, input string, res result) *big.Rat {
+	msgs := b.msgs()
+	n := len(msgs)
+	switch {
+	case def < 0:
+		s.hist["default/negative"]++
+	case def == 0:
+		s.hist["default/0"]++
+	default:
+		s.hist["default/positive"]++
+	}
+	// ---- refusal / zero baud
+	if def <= 0 {
+		if res.err == nil {
+			s.fail("default-not-refused", n, fmt.Sprintf("default cycle time %d accepted (load %v); case %s", def, res.load, input))
+		} else {
+			var ae *acmelib.ArgumentError
+			want := acmelib.ErrIsZero
+			if def < 0 {
+				want = acmelib.ErrIsNegative
+			}
+			if !errors.As(res.err, &ae) || !errors.Is(res.err, want) {
+				s.fail("default-refusal-kind", n, fmt.Sprintf("default cycle time %d refused with %v, documented ArgumentError wrapping %v; case %s", def, res.err, want, input))
+			}
+		}
+		return nil
+	}
+	if res.err != nil {
+		s.fail("positive-default-refused", n, fmt.Sprintf("default cycle time %d refused: %v; case %s", def, res.err, input))
+		return nil
+	}
+	if b.baud == 0 {
+		if res.load != 0 {
+			s.fail("zero-baud", n, fmt.Sprintf("baud rate 0 gives load %v, documented 0; case %s", res.load, input))
+		}
+		return nil
+	}
+
+	// ---- each message exactly once
+	seen := map[int]int{}
+	for _, k := range res.keys {
+		seen[k]++
+	}
+	permOK := len(res.keys) == n && !res.unknown
+	for _, m := range msgs {
+		if seen[m.key] != 1 {
+			permOK = false
+		}
+	}
+	if !permOK {
+		s.fail("each-message-once", n, fmt.Sprintf("entries list messages %v, sent messages are keys 0..%d once each; case %s", res.keys, n-1, input))
+	}
+
+	// ---- numbers: load, per-message rate and share, against the documented formula (exact)
+	tot := specTotal(b, def)
+	loadR := ratOf(res.load)
+	wantLoad := new(big.Rat).Quo(tot, new(big.Rat).SetInt64(int64(b.baud)))
+	wantLoad.Mul(wantLoad, big.NewRat(100, 1))
+	if !within(loadR, wantLoad, n) {
+		s.fail("load-value", n, fmt.Sprintf("load %v (= %s), documented sum of frame bits per cycle / baud * 100 = %s (%v), outside relative bound %d*2^-50; case %s", res.load, ratStr(loadR), wantLoad.String(), ratFloat(wantLoad), max(n, 1), input))
+	}
+	byKey := map[int]mspec{}
+	for _, m := range msgs {
+		byKey[m.key] = m
+	}
+	sumPct := new(big.Rat)
+	sumBps := new(big.Rat)
+	nan := false
+	for i, k := range res.keys {
+		br, pr := ratOf(res.bps[i]), ratOf(res.pct[i])
+		if br == nil || pr == nil {
+			nan = true
+			continue
+		}
+		sumPct.Add(sumPct, pr)
+		sumBps.Add(sumBps, br)
+		if m, ok := byKey[k]; ok {
+			if !within(br, specBps(m, def), 1) {
+				s.fail("entry-bps", n, fmt.Sprintf("message key %d (size %d, cycle %d): BitsPerSec %v, documented %s; case %s", k, m.size, m.cycle, res.bps[i], specBps(m, def).String(), input))
+			}
+		}
+	}
+	if nan {
+		s.fail("nan", n, fmt.Sprintf("NaN/Inf among the returned figures; case %s", input))
+	} else if n > 0 && permOK {
+		// share of the total, on the implementation's own numbers
+		for i := range res.keys {
+			br, pr := ratOf(res.bps[i]), ratOf(res.pct[i])
+			want := new(big.Rat).Quo(br, sumBps)
+			want.Mul(want, big.NewRat(100, 1))
+			if !within(pr, want, n) {
+				s.fail("entry-pct", n, fmt.Sprintf("message key %d: Percentage %v, its share BitsPerSec/sum*100 is %v; case %s", res.keys[i], res.pct[i], ratFloat(want), input))
+			}
+		}
+		if !within(sumPct, big.NewRat(100, 1), n) {
+			s.fail("shares-sum", n, fmt.Sprintf("percentages sum to %v, not 100 within %d*2^-50; case %s", ratFloat(sumPct), n, input))
+		}
+	}
+
+	// ---- order: non-increasing bits per second, on the implementation's own floats
+	for i := 0; i+1 < len(res.bps); i++ {
+		if res.bps[i] < res.bps[i+1] {
+			kind := "sorted-diff-ge-1"
+			if res.bps[i+1]-res.bps[i] < 1 {
+				kind = "sorted-diff-lt-1"
+			}
+			s.fail(kind, n, fmt.Sprintf("entry %d has %v bits/s, entry %d has %v bits/s (increasing by %v); case %s", i, res.bps[i], i+1, res.bps[i+1], res.bps[i+1]-res.bps[i], input))
+			break
+		}
+	}
+
 	return loadR
 }
 
@@ -405,7 +531,7 @@ func (s *state) monotone(r *rng, b bspec, load *big.Rat) {
 	n := len(msgs)
 	pick := msgs[r.below(n)].key
 	variant := func(f func(m *mspec)) bspec {
-		v := bspec{baud: b.baud, def: b.def, family: b.family}
+		v := bspec{baud: b.baud, def: b.def, family: b.family, builder: b.builder, nids: b.nids}
 		for _, i := range b.ifaces {
 			ni := append([]mspec{}, i...)
 			for j := range ni {
@@ -556,13 +682,13 @@ func (r *rng) genBus() bspec {
 	case fam < 4:
 		b.family = "mixed"
 		for i := range ms {
-			ms[i] = mspec{i, r.size(), r.cycle()}
+			ms[i] = mspec{i, r.size(), r.cycle(), 0}
 		}
 	case fam < 6:
 		// slow messages: every rate is below 1.2 bit/s, so all rates differ by less than 1
 		b.family = "slow-rates-below-1"
 		for i := range ms {
-			ms[i] = mspec{i, r.size(), 120000 + r.below(3480001)}
+			ms[i] = mspec{i, r.size(), 120000 + r.below(3480001), 0}
 		}
 	case fam < 8:
 		// neighbouring cycle times around a base: rates differ by fractions of a bit/s
@@ -570,7 +696,7 @@ func (r *rng) genBus() bspec {
 		base := 400 + r.below(20000)
 		sz := r.size()
 		for i := range ms {
-			ms[i] = mspec{i, sz, base + r.below(2*n+2)}
+			ms[i] = mspec{i, sz, base + r.below(2*n+2), 0}
 			if r.below(6) == 0 {
 				ms[i].size = r.size()
 			}
@@ -579,7 +705,7 @@ func (r *rng) genBus() bspec {
 		// default cycle for most: many exactly equal rates plus a few others
 		b.family = "default-cycle-ties"
 		for i := range ms {
-			ms[i] = mspec{i, []int{0, 8, r.size()}[r.below(3)], 0}
+			ms[i] = mspec{i, []int{0, 8, r.size()}[r.below(3)], 0, 0}
 			if r.below(5) == 0 {
 				ms[i].cycle = r.cycle()
 			}
@@ -591,11 +717,65 @@ func (r *rng) genBus() bspec {
 		// rates straddling an integer boundary by less than 1 (truncation towards zero of a difference)
 		b.family = "fast-close"
 		for i := range ms {
-			ms[i] = mspec{i, r.below(9), 1 + r.below(3)}
+			ms[i] = mspec{i, r.below(9), 1 + r.below(3), 0}
 		}
 	}
 	b.ifaces = r.distribute(ms)
+	r.decorate(&b)
 	return b
+}
+
+// decorate chooses what the model does not see: the CAN-ID builder of the bus, node and message ids
+// (deliberately colliding computed CAN-IDs for distinct messages, which is legal), and further
+// default cycle times for further calls on the same bus.
+func (r *rng) decorate(b *bspec) {
+	switch x := r.below(10); {
+	case x < 6:
+		b.builder = 0
+	case x < 8:
+		b.builder = 1
+	case x < 9:
+		b.builder = 2
+	default:
+		b.builder = 3
+	}
+	if r.below(10) < 4 {
+		// node ids that agree in the low 4 bits (all, or in two groups); message ids from a small
+		// set, also congruent modulo 128; unique within an interface as the library demands
+		base := 1 + r.below(15)
+		for i := range b.ifaces {
+			nid := base + 16*i
+			if r.below(4) == 0 {
+				nid = (base+1)%16 + 16*(i+1)
+			}
+			b.nids = append(b.nids, nid)
+		}
+		for i := range b.ifaces {
+			used := map[int]bool{}
+			for j := range b.ifaces[i] {
+				mid := 1 + r.below(3) + 128*r.below(3)
+				for used[mid] {
+					mid += 128
+				}
+				used[mid] = true
+				b.ifaces[i][j].mid = mid
+			}
+		}
+	}
+	if r.below(2) == 0 {
+		for i, n := 0, 1+r.below(3); i < n; i++ {
+			switch r.below(5) {
+			case 0:
+				b.more = append(b.more, b.def)
+			case 1:
+				b.more = append(b.more, b.def+1+r.below(50))
+			case 2:
+				b.more = append(b.more, 100)
+			default:
+				b.more = append(b.more, r.def())
+			}
+		}
+	}
 }
 
 func main() {
@@ -626,18 +806,28 @@ func main() {
 		}
 		// fixed small cases first: the test-suite's fixture and its neighbours
 		fixed := []bspec{
-			{baud: 250000, def: 500, family: "fixed", ifaces: [][]mspec{{{0, 8, 100}, {1, 8, 10}}}},
+			{baud: 250000, def: 500, family: "fixed", ifaces: [][]mspec{{{0, 8, 100, 0}, {1, 8, 10, 0}}}},
 			{baud: 250000, def: 500, family: "fixed", ifaces: nil},
 			{baud: 250000, def: 500, family: "fixed", ifaces: [][]mspec{{}}},
-			{baud: 500000, def: 100, family: "fixed", ifaces: [][]mspec{{{0, 0, 0}}, {{1, 8, 0}}}},
-			{baud: 500000, def: 1, family: "fixed", ifaces: [][]mspec{{{0, 8, 0}, {1, 8, 1}, {2, 7, 1}}}},
-			{baud: 125000, def: 100, family: "fixed", ifaces: [][]mspec{{{0, 8, 1000}, {1, 8, 1001}, {2, 8, 1002}}}},
-			{baud: 125000, def: 100, family: "fixed", ifaces: [][]mspec{{{0, 8, 1002}}, {{1, 8, 1001}}, {{2, 8, 1000}}}},
-			{baud: 0, def: 100, family: "fixed", ifaces: [][]mspec{{{0, 8, 10}}}},
-			{baud: 0, def: 0, family: "fixed", ifaces: [][]mspec{{{0, 8, 10}}}},
-			{baud: 0, def: -1, family: "fixed", ifaces: [][]mspec{{{0, 8, 10}}}},
-			{baud: 500000, def: 0, family: "fixed", ifaces: [][]mspec{{{0, 8, 10}}}},
-			{baud: 500000, def: -1, family: "fixed", ifaces: [][]mspec{{{0, 8, 10}}}},
+			{baud: 500000, def: 100, family: "fixed", ifaces: [][]mspec{{{0, 0, 0, 0}}, {{1, 8, 0, 0}}}},
+			{baud: 500000, def: 1, family: "fixed", ifaces: [][]mspec{{{0, 8, 0, 0}, {1, 8, 1, 0}, {2, 7, 1, 0}}}},
+			{baud: 125000, def: 100, family: "fixed", ifaces: [][]mspec{{{0, 8, 1000, 0}, {1, 8, 1001, 0}, {2, 8, 1002, 0}}}},
+			{baud: 125000, def: 100, family: "fixed", ifaces: [][]mspec{{{0, 8, 1002, 0}}, {{1, 8, 1001, 0}}, {{2, 8, 1000, 0}}}},
+			{baud: 0, def: 100, family: "fixed", ifaces: [][]mspec{{{0, 8, 10, 0}}}},
+			{baud: 0, def: 0, family: "fixed", ifaces: [][]mspec{{{0, 8, 10, 0}}}},
+			{baud: 0, def: -1, family: "fixed", ifaces: [][]mspec{{{0, 8, 10, 0}}}},
+			{baud: 500000, def: 0, family: "fixed", ifaces: [][]mspec{{{0, 8, 10, 0}}}},
+			{baud: 500000, def: -1, family: "fixed", ifaces: [][]mspec{{{0, 8, 10, 0}}}},
+			// several calls on the same bus with different defaults (and the same one twice)
+			{baud: 500000, def: 100, more: []int{250, 100, 0, 250, -1, 7}, family: "fixed", ifaces: [][]mspec{{{0, 8, 0, 0}, {1, 4, 0, 0}, {2, 8, 10, 0}}}},
+			{baud: 125000, def: 1, more: []int{3600000, 1}, family: "fixed", ifaces: [][]mspec{{{0, 0, 0, 0}}, {{1, 8, 0, 0}}}},
+			// distinct messages with the same computed CAN-ID: node ids 1 and 17 under the default
+			// builder (low 4 bits of the node id), message ids 5 and 133 (low 7 bits), custom builders
+			{baud: 500000, def: 100, nids: []int{1, 17}, family: "fixed", ifaces: [][]mspec{{{0, 8, 100, 5}}, {{1, 8, 100, 5}}}},
+			{baud: 500000, def: 100, nids: []int{1, 17, 33}, family: "fixed", ifaces: [][]mspec{{{0, 8, 100, 5}, {1, 2, 50, 133}}, {{2, 8, 10, 5}}, {{3, 1, 0, 261}}}},
+			{baud: 500000, def: 100, builder: 1, family: "fixed", ifaces: [][]mspec{{{0, 8, 100, 7}}, {{1, 3, 20, 7}}}},
+			{baud: 500000, def: 100, builder: 2, family: "fixed", ifaces: [][]mspec{{{0, 8, 100, 1}, {1, 3, 20, 2}, {2, 0, 0, 3}}}},
+			{baud: 500000, def: 100, builder: 3, family: "fixed", ifaces: [][]mspec{{{0, 8, 100, 1}, {1, 3, 20, 2}}, {{2, 5, 0, 1}}}},
 		}
 		for _, b := range fixed {
 			l := s.run(b)
@@ -651,6 +841,7 @@ func main() {
 			if i%5 == 0 {
 				b2 := b
 				b2.family = "repeat"
+				b2.more = nil
 				l2 := s.run(b2)
 				if l != nil && l2 != nil && !within(l2, l, 2*len(b.msgs())) {
 					s.fail("repeat-differs", len(b.msgs()), fmt.Sprintf("two calls on the same bus give loads %v and %v; case %s", ratFloat(l), ratFloat(l2), b.input()))
@@ -692,13 +883,19 @@ func atoi(x string) int {
 
 func parseCase(line string) bspec {
 	f := strings.Split(line, ";")
-	b := bspec{baud: atoi(f[1]), def: atoi(f[2]), family: "replay"}
-	if f[3] != "-" {
-		for _, is := range strings.Split(f[3], "|") {
+	ds := strings.Split(f[2], ",")
+	b := bspec{baud: atoi(f[1]), def: atoi(ds[0]), builder: atoi(f[3]), family: "replay"}
+	for _, d := range ds[1:] {
+		b.more = append(b.more, atoi(d))
+	}
+	if f[4] != "-" {
+		for _, is := range strings.Split(f[4], "|") {
+			nid, rest, _ := strings.Cut(is, "=")
+			b.nids = append(b.nids, atoi(nid))
 			ms := []mspec{}
-			for _, t := range strings.Fields(is) {
+			for _, t := range strings.Fields(rest) {
 				p := strings.Split(t, ":")
-				ms = append(ms, mspec{atoi(p[0]), atoi(p[1]), atoi(p[2])})
+				ms = append(ms, mspec{atoi(p[0]), atoi(p[1]), atoi(p[2]), atoi(p[3])})
 			}
 			b.ifaces = append(b.ifaces, ms)
 		}
